@@ -120,7 +120,9 @@ def check_rng_sources(ctx):
     for f, node in draws:
         ctx.holds("C18.a RNG-SOURCE", f"{f.name}:draw", f.loc(node), "seeded draw site (its random_state binding is decided by SEED-FLOW)")
     ctx.holds("C18.a RNG-SOURCE", "closed-world", GENERATE, f"{n_calls} call sites of the module resolved; none reaches numpy.random / random / time / another rvs")
-    ctx.check(len(draws) == 2, "C18.a RNG-SOURCE", "draw-sites", GENERATE, f"{len(draws)} seeded draw sites in the module", expected="2 (changing, anomalous)")
+    # how many call sites there are is a matter of structure (one per generator, or one shared helper); that every
+    # generated frame comes from exactly one seeded draw is decided per returning path by SEED-FLOW
+    ctx.check(len(draws) >= 1, "C18.a RNG-SOURCE", "draw-sites", GENERATE, f"{len(draws)} seeded draw sites in the module", expected="at least one")
     # module-level state: a module-level RandomState/Generator would be shared between calls
     for st in mod.tree.body:
         if isinstance(st, (ast.Assign, ast.AnnAssign)) and st.value is not None:
@@ -344,7 +346,8 @@ def check_placement(ctx, ex, f, fname, pk, p, info, stores):
     if other:
         ctx.undecided(rule, pk, other[0].loc(), f"the draw is modified through a view ({other[0].kind}: {ast.unparse(other[0].node)[:70]}); composition of view writes is not modelled")
         return
-    loops = [e.data["loop"] for e in p.events if e.kind == "loop_enter" and e.func is f and len(e.loops) == 0]
+    # the loop over the segments: in the generator itself or in a helper it calls
+    loops = [e.data["loop"] for e in p.events if e.kind == "loop_enter" and len(e.loops) == 0]
     seg_loops = [lp for lp in loops if any(lp in e.loops for e in stores)]
     unrolled = [e for e in p.events if e.kind == "zip_unroll"]
     # group consecutive stores that address the same rows: one group = the net effect on one segment
@@ -379,7 +382,7 @@ def check_placement(ctx, ex, f, fname, pk, p, info, stores):
             # an index loop over a fixed number of segments is unrolled by the engine: the scenario fixes that number
             posv = info["positions"]
             if isinstance(posv, ListV):
-                ctx.violation(rule, pk, stores[0].loc(), "the draw is transformed outside a loop over the segments", expected="one transform per segment in the loop over the segments")
+                ctx.undecided(rule, pk, stores[0].loc(), "the draw is transformed outside a recognised loop over the segments (a spelling of the generator this rule cannot read)")
                 return
             m = 2 if fname == "generate_changing_data" else 1
         if len(groups) != m:
@@ -539,6 +542,9 @@ def _find_list(over, lid):
                 walk(so[0])
             for q in getattr(v, "parts", None) or ():
                 walk(q)
+            cp = getattr(v, "comp", None)
+            if cp is not None:
+                walk(cp["iter"])  # a list of records built by a comprehension: the lists it was built from
         elif isinstance(v, OpaqueV) and v.meta.get("parts"):
             for q in v.meta["parts"]:
                 walk(q)
@@ -566,8 +572,15 @@ def check_guards(ctx, ex, f, fname, pk, p, info):
     cons = _elem_constraints(p.facts)
     n = info["n"]
     # the zip of the segment loop: lengths of the three sequences agree
-    loops = [e.data["loop"] for e in p.events if e.kind == "loop_enter" and e.func is f and len(e.loops) == 0]
+    loops = [e.data["loop"] for e in p.events if e.kind == "loop_enter" and len(e.loops) == 0]
     zl = [lp for lp in loops if isinstance(lp.info.get("over"), OpaqueV) and lp.info["over"].meta.get("kind") == "zip"]
+    # a loop over the records an unfiltered comprehension built from zip(positions, means, variances) visits the same
+    # tuples in the same order
+    zcomp = [lp for lp in loops if lp.info.get("comp_of") is not None and isinstance(lp.info["comp_of"]["iter"], OpaqueV) and lp.info["comp_of"]["iter"].meta.get("kind") == "zip"]
+    zip_of = {id(lp): lp.info["over"] for lp in zl}
+    for lp in zcomp:
+        zip_of[id(lp)] = lp.info["comp_of"]["iter"]
+    zl = zl + zcomp
     un = [e for e in p.events if e.kind == "zip_unroll"]
     pos = info["positions"]
     if fname == "generate_changing_data":
@@ -586,7 +599,7 @@ def check_guards(ctx, ex, f, fname, pk, p, info):
         elif not cand and nseg.as_const() is not None:
             idx_unrolled = int(nseg.as_const())
     if len(zl) + len(un) != 1 and idx_lp is None and idx_unrolled is None:
-        ctx.violation(rule, f"{pk}:zip", f.loc(), f"{len(zl) + len(un)} zip loops over segments", expected="one")
+        ctx.undecided(rule, f"{pk}:zip", f.loc(), f"{len(zl) + len(un)} zip loops over segments: the segment loop is neither a zip over (positions, means, variances) nor an index loop (a spelling of the generator this rule cannot read)")
         return
     if idx_lp is not None or idx_unrolled is not None:
         zloc = f.loc(idx_lp.node) if idx_lp is not None and getattr(idx_lp, "node", None) is not None else f.loc()
@@ -611,7 +624,7 @@ def check_guards(ctx, ex, f, fname, pk, p, info):
             seq.append(rd[-1].data["lst"])
         parts = [None, None] + seq if fname == "generate_changing_data" else [None] + seq
     else:
-        parts = zl[0].info["over"].meta["parts"] if zl else un[0].data["parts"]
+        parts = zip_of[id(zl[0])].meta["parts"] if zl else un[0].data["parts"]
         zloc = f.loc(zl[0].node) if zl and getattr(zl[0], "node", None) is not None else f.loc()
         seq = parts[2:] if fname == "generate_changing_data" else parts[1:]
     if idx_lp is None and fname == "generate_changing_data" and isinstance(pos, ListV) and len(parts) >= 2:
@@ -828,7 +841,8 @@ def check_pair_length(ctx):
 
 def check_frame(ctx, f, pk, p, info):
     rule = "C18.e FRAME"
-    ctors = [e for e in p.events if e.kind == "pandas_ctor" and e.data.get("which") == "frame" and e.func is f]
+    # the frame may be built in the generator itself or in a helper it calls
+    ctors = [e for e in p.events if e.kind == "pandas_ctor" and e.data.get("which") == "frame"]
     if len(ctors) != 1:
         ctx.violation(rule, pk, f.loc(), f"{len(ctors)} DataFrame constructions", expected="one")
         return
